@@ -7,7 +7,7 @@ from cliutil import run_cli
 from worlds import GenomeWorld
 
 PROPS = ('GambitV.Props.C17', 'GambitV.C17')
-TIE = [('GambitV.Tie.PyCluster', 'GambitV.Tie.Py')]
+TIE = [('GambitV.Tie.PyCluster', 'GambitV.Tie.Py'), ('GambitV.Tie.PyTreeFlow', 'GambitV.Tie.Py'), ('GambitV.Tie.PySeqFiles', 'GambitV.Tie.Py'), ('GambitV.Tie.PyCalcFiles', 'GambitV.Tie.Py')]
 RULE = ('(set of >= 2 genomes / signatures incl. identical genomes (zero distances) and equidistant ones, label set, input channel in {positional files, '
         'list file + --ldir, signature file}, -k/-p, -c). The Newick text printed by `gambit tree` is parsed (quoted labels) and checked by the Lean checker '
         'GambitV.checkTree against D = the real pairwise distance matrix of the real signatures: leaves = labels each once, binary, branch lengths >= 0, '
